@@ -53,31 +53,44 @@ def mapArg (args : List (String × MapVal)) (k : String) : Option MapVal :=
   -- dict: the last assignment of a key wins
   alookup k args.reverse
 
+/-- `generate_map` as a function of the resolver (the statement order of the Python code is kept:
+    the four mandatory keys, the `editable` check of `Bus.map`, the shapes of the values) -/
+def genMapR (args : List (String × MapVal)) (r : Resolver) : Except Err Resolver :=
+  match mapArg args "identifier", mapArg args "bank_range", mapArg args "addr_range", mapArg args "mask" with
+  | none, _, _, _ => .error .key
+  | some _, none, _, _ => .error .key
+  | some _, some _, none, _ => .error .key
+  | some _, some _, some _, none => .error .key
+  | some ident, some bank, some _, some mask =>
+    let identS := match ident with
+      | .num n => toString n
+      | .pair a b => s!"({a}, {b})"
+    if !r.userBus.editable then .error .runtime
+    else
+      match bank with
+      | .num _ => .error .type
+      | .pair lo hi =>
+        match mask with
+        | .pair _ _ => .error .type
+        | .num m =>
+          let ram := (mapArg args "writable").isSome
+          let mirror : Except Err (Option (Nat × Nat)) := match mapArg args "mirror_bank_range" with
+            | none => .ok none
+            | some (.pair a b) => .ok (some (a.toNat, b.toNat))
+            | some (.num n) => if n == 0 then .ok none else .error .type
+          match mirror with
+          | .error e => .error e
+          | .ok mirror =>
+            match r.userBus.map identS lo.toNat hi.toNat m.toNat ram mirror with
+            | some b => .ok { r with userBus := b }
+            | none => .error .runtime
+
 /-- `generate_map` -/
 def genMap (args : List (String × MapVal)) : GM Unit := do
-  let ident ← liftOpt .key (mapArg args "identifier")
-  let bank ← liftOpt .key (mapArg args "bank_range")
-  let _addr ← liftOpt .key (mapArg args "addr_range")
-  let mask ← liftOpt .key (mapArg args "mask")
-  let identS := match ident with
-    | .num n => toString n
-    | .pair a b => s!"({a}, {b})"
   let st ← get
-  if !st.r.userBus.editable then throw .runtime
-  let (lo, hi) ← match bank with
-    | .pair a b => pure (a, b)
-    | .num _ => throw .type
-  let m ← match mask with
-    | .num n => pure n
-    | .pair _ _ => throw .type
-  let ram := (mapArg args "writable").isSome
-  let mirror ← match mapArg args "mirror_bank_range" with
-    | none => pure none
-    | some (.pair a b) => pure (some (a.toNat, b.toNat))
-    | some (.num n) => if n == 0 then pure none else throw .type
-  match st.r.userBus.map identS lo.toNat hi.toNat m.toNat ram mirror with
-  | some b => set { st with r := { st.r with userBus := b } }
-  | none => throw .runtime
+  match genMapR args st.r with
+  | .ok r => set { st with r := r }
+  | .error e => throw e
 
 /-- value of one macro argument at the call site -/
 inductive Bound
